@@ -819,13 +819,19 @@ class Processor:
                     and hasattr(parent, "merge")
                     and len(parent.merge) > 0
                 ):
+                    merge_removed = False
                     for (midx, merge_node) in parent.merge:
                         if merge_node == compare_node:
                             for (key, val) in merge_node.items():
                                 if key in parent and parent[key] == val:
                                     del parent[key]
                             del parent.merge[midx]
+                            merge_removed = True
                             break
+                    if not merge_removed and parentref in parent:
+                        # Not a merge reference after all:  an ordinary key
+                        # which happens to bear the name of its own anchor
+                        del parent[parentref]
                 elif parentref in parent:
                     del parent[parentref]
             elif isinstance(parent, (CommentedSeq, list)):
